@@ -255,9 +255,9 @@ Proof.
 Qed.
 
 Lemma framer_cfg_keys sk cfg l l' : u_keys slavectx l' = u_keys slavectx l -> framer_cfg sk cfg l' = framer_cfg sk cfg l.
-Proof. intros H. unfold framer_cfg. now rewrite H. Qed.
+Proof. intros H. unfold framer_cfg, unit_cfg. now rewrite H. Qed.
 
-Definition result {FS} (l : units slavectx) (b : bytes) (st : FS) : e2e_result FS :=
+Definition result {ST FS} (l : ST) (b : bytes) (st : FS) : e2e_result ST FS :=
   {| e_units := l; e_out := b; e_framer := st; e_stop := None; e_fault := None |}.
 
 (* ---- the Modbus/TCP instance ---------------------------------------------------------------- *)
@@ -285,34 +285,102 @@ Theorem handle_all_spec sk cfg qs : In sk tcp_fes -> forall l su,
              units_rel l' (fst (spec_run (cf_single cfg) su qs)) /\ u_keys slavectx l' = u_keys slavectx l.
 Proof. intros Hsk. exact (handle_all_spec_g packet_of tcp_adu delivery_of sk cfg qs tcp_pk_ok (tcp_fe_ok sk Hsk)). Qed.
 
+(* ---- the handler loops, generic in the server state and the framing --------------------------- *)
+Definition nonempty (c : bytes) : bool := match c with [] => false | _ => true end.
+
+Lemma filter_nonempty_all chunks : Forall (fun c => c <> []) (filter nonempty chunks).
+Proof. apply Forall_forall. intros c Hc. apply filter_In in Hc as [_ Hc]. destruct c; discriminate. Qed.
+
+Lemma concat_filter_nonempty chunks : concat (filter nonempty chunks) = concat chunks.
+Proof. induction chunks as [|c cs IH]; [reflexivity|]. destruct c; cbn [filter nonempty concat app]; [exact IH|now rewrite IH]. Qed.
+
+Section LoopLemmas.
+Context {ST FS : Type}.
+Variable keys : ST -> list Z.
+Variable hall : ST -> list delivery -> ST * bytes * option pyexn.
+Variable recv : FrBaseA.cfg -> FS -> bytes -> FS * list delivery * outc.
+Variable sk : skel.
+Variable cfg : scfg.
+Hypothesis hall_nil : forall s, hall s [] = (s, [], None).
+Hypothesis hall_app : forall d1 s d2 s' b, hall s (d1 ++ d2) = (s', b, None) ->
+  exists s1 b1 b2, hall s d1 = (s1, b1, None) /\ hall s1 d2 = (s', b2, None) /\ b = b1 ++ b2.
+Hypothesis hall_keys : forall ds s s' b, hall s ds = (s', b, None) -> keys s' = keys s.
+
+Lemma run_feed_g : forall chunks st l st' ds l' b,
+  feed (recv (unit_cfg sk cfg (keys l))) st chunks = (st', ds, true) ->
+  hall l ds = (l', b, None) ->
+  run_reads_g keys hall recv sk cfg false st l chunks = result l' b st'.
+Proof.
+  induction chunks as [|c cs IH]; intros st l st' ds l' b Hf Hh.
+  - cbn in Hf. injection Hf as <- <-. rewrite hall_nil in Hh. injection Hh as <- <-. reflexivity.
+  - cbn [feed] in Hf. cbn [run_reads_g andb].
+    destruct (recv (unit_cfg sk cfg (keys l)) st c) as [[s1 d1] o].
+    destruct (feed (recv (unit_cfg sk cfg (keys l))) s1 cs) as [[s2 d2] ok] eqn:Ef.
+    injection Hf as <- <- Hflag.
+    destruct (hall_app d1 l d2 l' b Hh) as (l1 & b1 & b2 & H1 & H2 & ->).
+    rewrite H1. destruct o; try discriminate Hflag. subst ok.
+    rewrite <- (hall_keys d1 l l1 b1 H1) in Ef.
+    rewrite (IH s1 l1 s2 d2 l' b2 Ef H2). reflexivity.
+Qed.
+
+Lemma run_eff_g eof : forall chunks st l,
+  run_reads_g keys hall recv sk cfg eof st l chunks = run_reads_g keys hall recv sk cfg false st l (eff_chunks eof chunks).
+Proof.
+  induction chunks as [|c cs IH]; intros st l; [reflexivity|].
+  cbn [run_reads_g eff_chunks]. destruct (eof && match c with [] => true | _ :: _ => false end); [reflexivity|].
+  cbn [run_reads_g andb].
+  destruct (recv (unit_cfg sk cfg (keys l)) st c) as [[s1 d1] o].
+  destruct (hall l d1) as [[l1 b1] flt]. destruct flt; [reflexivity|].
+  destruct o; try reflexivity. now rewrite IH.
+Qed.
+
+Lemma run_serial_feed_g : forall chunks st l st' ds l' b,
+  Forall (fun c => c <> []) chunks ->
+  feed (recv (unit_cfg sk cfg (keys l))) st chunks = (st', ds, true) ->
+  hall l ds = (l', b, None) ->
+  run_serial_g keys hall recv sk cfg st l chunks = result l' b st'.
+Proof.
+  induction chunks as [|c cs IH]; intros st l st' ds l' b Hne Hf Hh.
+  - cbn in Hf. injection Hf as <- <-. rewrite hall_nil in Hh. injection Hh as <- <-. reflexivity.
+  - inversion Hne as [|? ? Hc Hcs]; subst. cbn [feed] in Hf. cbn [run_serial_g].
+    destruct c as [|x c']; [contradiction|].
+    destruct (recv (unit_cfg sk cfg (keys l)) st (x :: c')) as [[s1 d1] o].
+    destruct (feed (recv (unit_cfg sk cfg (keys l))) s1 cs) as [[s2 d2] ok] eqn:Ef.
+    injection Hf as <- <- Hflag.
+    destruct (hall_app d1 l d2 l' b Hh) as (l1 & b1 & b2 & H1 & H2 & ->).
+    rewrite H1. destruct o; try discriminate Hflag. subst ok.
+    rewrite <- (hall_keys d1 l l1 b1 H1) in Ef.
+    rewrite (IH s1 l1 s2 d2 l' b2 Hcs Ef H2). reflexivity.
+Qed.
+
+Lemma run_serial_filter_g : forall chunks st l,
+  run_serial_g keys hall recv sk cfg st l chunks = run_serial_g keys hall recv sk cfg st l (filter nonempty chunks).
+Proof.
+  induction chunks as [|c cs IH]; intros st l; [reflexivity|].
+  destruct c as [|x c']; cbn [filter nonempty run_serial_g]; [apply IH|].
+  destruct (recv (unit_cfg sk cfg (keys l)) st (x :: c')) as [[s1 d1] o].
+  destruct (hall l d1) as [[l1 b1] flt]. destruct flt; [reflexivity|].
+  destruct o; try reflexivity; now rewrite IH.
+Qed.
+End LoopLemmas.
+
+Lemma handle_all_nil pk sk cfg l : handle_all pk sk cfg l [] = (l, [], None).
+Proof. reflexivity. Qed.
+
 Lemma run_feed sk cfg : In sk tcp_fes -> forall chunks st l st' ds l' b,
   feed (t_recv base tcp e2e_dec (framer_cfg sk cfg l)) st chunks = (st', ds, true) ->
   handle_all packet_of sk cfg l ds = (l', b, None) ->
   run_reads sk cfg false st l chunks = result l' b st'.
 Proof.
-  intros Hsk. induction chunks as [|c cs IH]; intros st l st' ds l' b Hf Hh.
-  - cbn in Hf. injection Hf as <- <-. cbn in Hh. injection Hh as <- <-. reflexivity.
-  - cbn [feed] in Hf. cbn [run_reads andb].
-    destruct (t_recv base tcp e2e_dec (framer_cfg sk cfg l) st c) as [[s1 d1] o].
-    destruct (feed (t_recv base tcp e2e_dec (framer_cfg sk cfg l)) s1 cs) as [[s2 d2] ok] eqn:Ef.
-    injection Hf as <- <- Hflag.
-    destruct (handle_all_app packet_of sk cfg d1 l d2 l' b Hh) as (l1 & b1 & b2 & H1 & H2 & ->).
-    rewrite H1. destruct o; try discriminate Hflag. subst ok.
-    pose proof (handle_all_keys packet_of sk cfg d1 (tcp_fes_all sk Hsk) l l1 b1 H1) as Hk.
-    rewrite <- (framer_cfg_keys sk cfg l l1 Hk) in Ef.
-    rewrite (IH s1 l1 s2 d2 l' b2 Ef H2). reflexivity.
+  intros Hsk chunks st l st' ds l' b. unfold run_reads, framer_cfg.
+  apply (run_feed_g (u_keys slavectx) (handle_all packet_of sk cfg) (t_recv base tcp e2e_dec) sk cfg
+           (handle_all_nil packet_of sk cfg) (fun d1 s d2 s' b0 => handle_all_app packet_of sk cfg d1 s d2 s' b0)
+           (fun ds0 => handle_all_keys packet_of sk cfg ds0 (tcp_fes_all sk Hsk))).
 Qed.
 
 Lemma run_eff sk cfg eof : forall chunks st l,
   run_reads sk cfg eof st l chunks = run_reads sk cfg false st l (eff_chunks eof chunks).
-Proof.
-  induction chunks as [|c cs IH]; intros st l; [reflexivity|].
-  cbn [run_reads eff_chunks]. destruct (eof && match c with [] => true | _ :: _ => false end); [reflexivity|].
-  cbn [run_reads andb].
-  destruct (t_recv base tcp e2e_dec (framer_cfg sk cfg l) st c) as [[s1 d1] o].
-  destruct (handle_all packet_of sk cfg l d1) as [[l1 b1] flt]. destruct flt; [reflexivity|].
-  destruct o; try reflexivity. now rewrite IH.
-Qed.
+Proof. intros. unfold run_reads. apply run_eff_g. Qed.
 
 (* ================================================================== framing: C06_tcp *)
 Lemma request_pdu_length m w : wreq_of_msg m = Some w -> spec_wf m = true ->
@@ -349,7 +417,7 @@ Proof. intros H. unfold FrBaseA.zmem. apply existsb_exists. exists k. split; [ex
 Lemma served_accepted sk cfg l uid : served sk cfg (u_keys slavectx l) uid ->
   spec_accepts KTcp (framer_cfg sk cfg l) uid = true.
 Proof.
-  intros [_ Hin]. unfold spec_accepts, FrSpecA.spec_single, framer_cfg. cbn [c_single c_units].
+  intros [_ Hin]. unfold spec_accepts, FrSpecA.spec_single, framer_cfg, unit_cfg. cbn [c_single c_units].
   destruct (cf_single cfg) eqn:Es; [reflexivity|]. cbn [spec_key] in Hin. cbn [orb].
   assert (Hz : FrBaseA.zmem uid (unit_list sk cfg (u_keys slavectx l)) = true).
   { apply zmem_in. unfold unit_list. destruct (ceval _ _); [apply in_or_app; left|]; exact Hin. }
